@@ -9,6 +9,7 @@ import PegVerif.Model.Syntax
     * every `act code` replaced by `name "ActionN"`, N counted over the whole grammar in
       traversal order, with a new rule `ActionN <- ipush (act code) ActionN` appended      (link)
     * every reference to an undefined name gets a stub rule with body `nil` appended        (link)
+    * every name an expression refers to is recorded (`t.referenced[name] = true`)          (link)
     * every `push e _` becomes `push e "PegText"`, and a rule `PegText` with body `nil` is
       appended the first time                                                              (link)
   New rules get ids from `RulesCount`, which `Compile` has incremented once before (so one id is
@@ -23,6 +24,7 @@ structure LinkSt where
   defined : List String           -- keys of t.Rules
   added : List Rule               -- rules appended by link, in order
   actions : List (String × String) -- t.Actions: (rule name, code), in order
+  referenced : List String        -- keys of t.referenced: the names of the `TypeName` nodes `link` met
 deriving Repr, Inhabited
 
 mutual
@@ -36,6 +38,7 @@ mutual
                   defined := name :: st.defined, added := st.added ++ [r],
                   actions := st.actions ++ [(name, code)] })
     | .name n, st =>
+      let st := { st with referenced := n :: st.referenced }     -- t.referenced[name] = true
       if st.defined.contains n then (.name n, st)
       else
         let r : Rule := { name := n, id := st.rulesCount, body := .nil }
@@ -73,6 +76,7 @@ structure Linked where
   G : Grammar
   actions : List (String × String)
   dup : Option String            -- a rule defined twice: Compile returns an error
+  referenced : List String       -- keys of t.referenced after `link` (read by the emission loop)
 deriving Repr, Inhabited
 
 /-- First pass over the rules: wrap bodies, detect duplicates. -/
@@ -93,8 +97,8 @@ def linkGrammar (rules : List Rule) : Linked :=
   let (wrapped, dup) := firstPass rules
   let st0 : LinkSt :=
     { rulesCount := rules.length + 1, nAct := 0, defined := wrapped.map (·.name), added := [],
-      actions := [] }
+      actions := [], referenced := [] }
   let (rs, st) := linkRules wrapped st0
-  { G := { rules := rs ++ st.added }, actions := st.actions, dup := dup }
+  { G := { rules := rs ++ st.added }, actions := st.actions, dup := dup, referenced := st.referenced }
 
 end PegVerif
